@@ -217,6 +217,7 @@ func init() {
 			CLI   string `json:"cli"`
 			Dir   string `json:"dir"`
 			Keep  string `json:"keep"`
+			Prev  string `json:"prev"`
 		}
 		loadCases(args, &c)
 		rec := map[string]interface{}{"event": "extract", "depth": c.Depth, "batch": c.Batch, "procs": runtime.GOMAXPROCS(0), "pid": os.Getpid(), "whole": "", "defs": map[string]string{}, "err": "", "via": "lib"}
@@ -225,6 +226,11 @@ func init() {
 		if c.CLI != "" {
 			rec["via"] = "cli"
 			out := filepath.Join(c.Dir, fmt.Sprintf("extract-%d.lean", os.Getpid()))
+			// as in the CI step, the command overwrites an EXISTING model (here: the committed file plus a tail) — what it writes must not
+			// depend on what the path held before
+			if old, e0 := os.ReadFile(c.Prev); e0 == nil {
+				os.WriteFile(out, append(old, bytes.Repeat([]byte("-- stale tail\n"), 2000)...), 0o644)
+			}
 			msg, e := exec.Command(c.CLI, "extract-circuit", "--output", out, "--tree-depth", fmt.Sprint(c.Depth), "--batch-size", fmt.Sprint(c.Batch)).CombinedOutput()
 			if e != nil {
 				err = fmt.Errorf("extract-circuit: %v: %s", e, firstLine(string(msg)))
